@@ -51,6 +51,7 @@ func checkC02(c *Check) {
 	c02Abort(c)
 	c02CommitRecordWriters(c)
 	c02RecordMaps(c)
+	c02WheelCallback(c)
 	c02ErrorsNotSwallowed(c)
 	c02CleanupOnlyWhenGone(c)
 }
@@ -987,4 +988,152 @@ func c02CommitLast(c *Check) {
 		}
 	}
 	c.Hold("R1d", "storeNewMessage:commit-record-last", r.FI.Decl.Pos(), msg == "", msg)
+}
+
+
+// R10: the retry wheel has ONE goroutine (tick); it runs the callback handed to NewTimeWheel, and TimeWheel.Add is a
+// rendezvous with that goroutine. A callback that waits (for a delivery slot, a channel, a wait group) while the
+// holders of what it waits for are themselves inside Add stops the wheel for good: nothing that is due – after a
+// restart, the whole spool – is attempted again. The callback may only start goroutines and do non-waiting work.
+func c02WheelCallback(c *Check) {
+	c.Rule("R10", "the retry wheel's callback never waits on its own goroutine: no channel send / receive outside a select with default, no WaitGroup.Wait / Cond.Wait / time.Sleep / TimeWheel.Add, directly or in what it calls synchronously (waiting belongs in the goroutine it starts)", 1)
+	p := c.P
+	pk := p.Pkg(queueRel)
+	if pk == nil {
+		c.Fail("R10", "queue", token.NoPos, "undecided: queue package not loaded")
+		return
+	}
+	info := pk.TypesInfo
+	var callbacks []*FuncInfo
+	for _, fi := range funcsOfPkgs(p, queueRel) {
+		for _, call := range callsIn(fi.Decl.Body) {
+			fn := callee(info, call)
+			if fn == nil || fn.Pkg() != pk.Types || refName(fn) != "NewTimeWheel" || len(call.Args) != 1 {
+				continue
+			}
+			var cb *types.Func
+			switch a := ast.Unparen(call.Args[0]).(type) {
+			case *ast.SelectorExpr:
+				cb, _ = info.Uses[a.Sel].(*types.Func)
+			case *ast.Ident:
+				cb, _ = info.Uses[a].(*types.Func)
+			}
+			if d := p.DeclOf(cb); cb != nil && d != nil && d.Decl.Body != nil {
+				callbacks = append(callbacks, d)
+			} else {
+				c.Fail("R10", fi.Name()+":callback", call.Pos(), "undecided: the wheel's callback is not a function of the package")
+			}
+		}
+	}
+	if len(callbacks) == 0 {
+		c.Fail("R10", "callback", token.NoPos, "undecided: no NewTimeWheel(callback) in the queue package")
+		return
+	}
+	var waits func(fi *FuncInfo, depth int, seen map[*types.Func]bool) (string, token.Pos)
+	waits = func(fi *FuncInfo, depth int, seen map[*types.Func]bool) (string, token.Pos) {
+		if seen[fi.Obj] {
+			return "", token.NoPos
+		}
+		seen[fi.Obj] = true
+		fInfo := fi.Pkg.TypesInfo
+		// comm statements of selects with a default never wait
+		safe := map[ast.Node]bool{}
+		ast.Inspect(fi.Decl.Body, func(x ast.Node) bool {
+			sel, ok := x.(*ast.SelectStmt)
+			if !ok {
+				return true
+			}
+			hasDefault := false
+			for _, cl := range sel.Body.List {
+				if cc := cl.(*ast.CommClause); cc.Comm == nil {
+					hasDefault = true
+				}
+			}
+			for _, cl := range sel.Body.List {
+				if cc := cl.(*ast.CommClause); cc.Comm != nil && hasDefault {
+					ast.Inspect(cc.Comm, func(y ast.Node) bool {
+						if y != nil {
+							safe[y] = true
+						}
+						return true
+					})
+				}
+			}
+			if !hasDefault {
+				safe[sel] = false
+			}
+			return true
+		})
+		what, at := "", token.NoPos
+		var visit func(n ast.Node) bool
+		visit = func(n ast.Node) bool {
+			if what != "" || n == nil {
+				return false
+			}
+			switch x := n.(type) {
+			case *ast.GoStmt:
+				// arguments are evaluated here, the body runs elsewhere
+				for _, a := range x.Call.Args {
+					ast.Inspect(a, visit)
+				}
+				return false
+			case *ast.FuncLit:
+				return false // runs when called; deferred / callback literals of the callback are rare and judged where invoked
+			case *ast.DeferStmt:
+				if lit, ok := x.Call.Fun.(*ast.FuncLit); ok {
+					ast.Inspect(lit.Body, visit) // runs on this goroutine at return
+					return false
+				}
+			case *ast.SendStmt:
+				if !safe[x] {
+					what, at = "channel send "+exprStr(x.Chan)+" <- …", x.Pos()
+				}
+			case *ast.UnaryExpr:
+				if x.Op == token.ARROW && !safe[x] {
+					what, at = "channel receive <-"+exprStr(x.X), x.Pos()
+				}
+			case *ast.SelectStmt:
+				if v, has := safe[x]; has && !v {
+					what, at = "select without default", x.Pos()
+				}
+			case *ast.RangeStmt:
+				if _, isChan := fInfo.TypeOf(x.X).Underlying().(*types.Chan); isChan {
+					what, at = "range over channel "+exprStr(x.X), x.Pos()
+				}
+			case *ast.CallExpr:
+				switch {
+				case isCall(fInfo, x, "sync.WaitGroup.Wait", "sync.Cond.Wait", "time.Sleep"):
+					what, at = exprStr(x.Fun)+"()", x.Pos()
+				default:
+					fn := callee(fInfo, x)
+					if fn == nil || fn.Pkg() == nil || !strings.HasPrefix(fn.Pkg().Path(), modPath) {
+						return true
+					}
+					if recv := fn.Type().(*types.Signature).Recv(); recv != nil {
+						if nt := namedOf(recv.Type()); nt != nil && objName(nt.Obj()) == "TimeWheel" && refName(fn) == "Add" {
+							what, at = "TimeWheel.Add (a rendezvous with the goroutine the callback runs on)", x.Pos()
+							return false
+						}
+					}
+					if d := p.DeclOf(fn); d != nil && d.Decl.Body != nil && depth < 3 && fn.Pkg() == fi.Obj.Pkg() {
+						if w, _ := waits(d, depth+1, seen); w != "" {
+							what, at = w+" (in "+d.Name()+")", x.Pos()
+						}
+					}
+				}
+			}
+			return what == ""
+		}
+		ast.Inspect(fi.Decl.Body, visit)
+		return what, at
+	}
+	for _, cb := range callbacks {
+		c.SawFunc(cb.Name())
+		w, at := waits(cb, 0, map[*types.Func]bool{})
+		pos := cb.Decl.Pos()
+		if at.IsValid() {
+			pos = at
+		}
+		c.Hold("R10", cb.Name()+":never-waits", pos, w == "", "the retry wheel's callback waits on the wheel's only goroutine: "+w+". While it waits no other due message is dispatched, and a delivery goroutine that re-schedules its message (TimeWheel.Add hands over to this goroutine) can never finish: after a restart with a backlog the spool is not attempted again")
+	}
 }
